@@ -13,7 +13,8 @@ TYPES = ["latency", "bandwidth", "slicer", "slow_close", "timeout", "limit_data"
 
 
 def attrs_for(rng, ty):
-    return {f: rng.choice([1, 20, 300, 4096]) for f in A.TOXIC_FIELDS[ty] if rng.chance(2, 3)}
+    # includes integers that float32 cannot represent (2^24+1, ...): attribute values are int64 on the wire
+    return {f: rng.choice([1, 20, 300, 4096, 16777217, 100000001, 2147483647]) for f in A.TOXIC_FIELDS[ty] if rng.chance(2, 3)}
 
 
 class Tracker:
